@@ -143,6 +143,31 @@ Section Pipe.
     rewrite (stdin_version_v2 hb roots bs hi lo dpad ioff trailer Hh H1 H2 H3 H4). split; reflexivity.
   Qed.
 
+  (* ---- car list verifies what it lists ------------------------------------------------------------------ *)
+  (* a section whose bytes do not hash to its CID ends the listing with an error (exit status 1), after
+     the CIDs in front of it; from a pipe as from a file *)
+  Theorem list_car_corrupt hb roots pre c d rest :
+    hdr_ok hdrdec hb roots -> blocks_ok pre -> hashes_ok hok pre ->
+    blk_ok default_maxs (c, d) -> hash_bad hok (c, d) ->
+    let file := ld hb ++ enc_sections pre ++ enc_section c d ++ rest in
+    list_car hok hdrdec file = (false, map fst pre) /\
+    list_car_stdin true hok hdrdec file = (false, map fst pre).
+  Proof.
+    intros Hh Hb Hg Hc Hbad file.
+    assert (H : list_car hok hdrdec file = (false, map fst pre)).
+    { unfold list_car, br_read_all, br_open, file. cbn [o_maxh default_ropts].
+      rewrite (read_header_hb hok hdrdec pragma_ok hb roots 1)
+        by (try apply Hh; eapply (hdr_ok_63 hok hdrdec pragma_ok); exact Hh).
+      cbn [N.eqb Pos.eqb]. fold default_ropts.
+      rewrite (scan_all_corrupt hok hdrdec default_ropts pre c d rest eq_refl).
+      - reflexivity.
+      - cbn [o_maxs default_ropts]. eapply Forall_impl; [|exact Hb]. intros b. apply blk_ok_block_ok.
+      - exact Hg.
+      - cbn [o_maxs default_ropts]. apply blk_ok_block_ok. exact Hc.
+      - exact Hbad. }
+    split; [exact H|exact H].
+  Qed.
+
   (* ---- car debug | car compile ---------------------------------------------------------------------- *)
   Theorem compile_any_order roots (bs order : list block) :
     hdr_ok hdrdec (enc_header (Some roots) 1) roots ->
